@@ -22,6 +22,10 @@ class SetMutator(CollectionAttrMutator):
             self.transform_item(value, self.prepare_item)
 
     def _extractor(self, value_or_index, raise_if_missing=False):
+        if value_or_index is MISSING and not raise_if_missing:
+            # Nothing is being looked up (e.g. a plain addition); do not test
+            # the sentinel for membership (keyed sets would try to key it).
+            return (MISSING, MISSING)
         if raise_if_missing and value_or_index not in self.collection:
             raise ValueError(
                 f"Value `{repr(value_or_index)}` not found in collection `{self.attr_spec.qualified_name}`."
